@@ -44,7 +44,7 @@ def grammar():
         arith=('+', '-'), cmp=('=', '<'), conn=('and', 'or', 'implies'), neg=True, un_minus=True,
         funcs={'abs': ('N', 'N'), 'len': ('A', 'N'), 'sum': ('SET', 'N'), 'max': ('R', 'N')},
         quants=('forall', 'exists'), domains=('A', 'SET', 'R'),
-        set_widths=(1, 2), range_flags=((False, False), (True, True)),
+        set_widths=(1, 2), range_flags=((False, False), (True, True), (True, False), (False, True)),
         inclusion=('A', 'SET', 'R'), index=True, eq_sorts=('N', 'B'),
     )
 
